@@ -3,12 +3,17 @@
    of searchset/tokenizer.Tokenize as repaired (token text = source bytes);
    [candidates_from_sorted] models untangle/split/merge/coalesce of
    searchset.FindPotentialMatches starting from the sorted list of q-gram
-   matches (targetMatchedRanges and sort.Sort are an oracle: any list of
-   in-bounds ranges sorted by target start). *)
+   matches.  The last four theorems start one level lower, from the node
+   lists: [hash_ranges]/[node_ranges] model the windows searchset.New hashes
+   (compared with the code on every case), and what targetMatchedRanges keeps
+   is only assumed to pair a hashed source window with a target node of equal
+   checksum ([pairingb]) and to be sorted ([sorted_lexb]) - both evaluated on
+   the code's output on every case; which pairs are kept stays heuristic code. *)
 From Coq Require Import List NArith ZArith Bool Arith Lia.
 Import ListNotations.
 From LC.Base Require Import Utf8.
-From LC.V1 Require Import Tok1 Matcher1 Tok1Proof Matcher1Proof Matcher1Straddle.
+From LC.Base Require Import Sort.
+From LC.V1 Require Import Tok1 Matcher1 Tok1Proof Matcher1Proof Matcher1Straddle Join1 Join1Proof.
 
 (* every token text is exactly the bytes of the string at its offset, non-empty, inside the string *)
 Theorem C17_offsets_reproduce_text : forall U s t, In t (tokenize U true s) ->
@@ -73,6 +78,63 @@ Theorem C17_target_range_inside_text : forall U s sorted c,
               (a <= b)%N /\ (N.to_nat b <= length s)%nat.
 Proof. exact candidates_target_range_tokenize. Qed.
 Print Assumptions C17_target_range_inside_text.
+
+(* every window New hashes is non-empty and inside the token list, for every text length and every granularity >= 0 *)
+(* statement as proved in V1/Join1Proof.v (written out; checked against the lemma by exact) *)
+Theorem C17_windows_in_bounds :
+  forall len g : Z, (0 <= len)%Z -> (0 <= g)%Z -> Forall (window_ok len) (hash_ranges len g).
+Proof. exact (@hash_ranges_ok). Qed.
+Print Assumptions C17_windows_in_bounds.
+
+(* merge sort with MatchRanges.Less keeps every pairing and yields the sortedness the pipeline needs, for every list *)
+Theorem C17_sort_establishes_hypotheses : forall srcn tgtn matched,
+  forallb (pairingb srcn tgtn) matched = true ->
+  forallb (pairingb srcn tgtn) (sort mr_lt matched) = true /\ sorted_lexb (sort mr_lt matched) = true.
+Proof. exact sort_pairings. Qed.
+Print Assumptions C17_sort_establishes_hypotheses.
+
+(* C17(b) from the node lists: no assumption on the ranges beyond pairing and sortedness (both evaluated per case) *)
+(* statement as proved in V1/Join1Proof.v (written out; checked against the lemma by exact) *)
+Theorem C17_candidates_from_nodes :
+  forall (lens lent gs gt : Z) (sums_s sums_t : list N),
+         (0 <= lens)%Z ->
+         (0 <= lent)%Z ->
+         (0 <= gs)%Z ->
+         (0 <= gt)%Z ->
+         forall sorted : list mrange,
+         forallb (pairingb (combine sums_s (hash_ranges lens gs)) (combine sums_t (node_ranges lent gt)))
+           sorted = true ->
+         sorted_lexb sorted = true ->
+         sorted <> [] ->
+         lists_ok lent (candidates_from_sorted sorted) /\
+         Forall (Forall (range_ok lent)) (candidates_from_sorted sorted).
+Proof. exact (@candidates_from_nodes). Qed.
+Print Assumptions C17_candidates_from_nodes.
+
+(* TargetRange of every candidate slices the tokenized string, from the node lists *)
+(* statement as proved in V1/Join1Proof.v (written out; checked against the lemma by exact) *)
+Theorem C17_target_range_from_nodes :
+  forall (U : cls) (s : list byte) (lens gs gt : Z) (sums_s sums_t : list N) (sorted c : list mrange),
+         (0 <= lens)%Z ->
+         (0 <= gs)%Z ->
+         (0 <= gt)%Z ->
+         let lent := Z.of_nat (length (tokenize U true s)) in
+         forallb (pairingb (combine sums_s (hash_ranges lens gs)) (combine sums_t (node_ranges lent gt)))
+           sorted = true ->
+         sorted_lexb sorted = true ->
+         sorted <> [] ->
+         In c (candidates_from_sorted sorted) ->
+         exists a b : N,
+           target_range (tokenize U true s) c = Some (a, b) /\ (a <= b)%N /\ N.to_nat b <= length s.
+Proof. exact (@target_range_from_nodes). Qed.
+Print Assumptions C17_target_range_from_nodes.
+
+(* the guard is needed: a negative granularity hashes the window (0, g) *)
+(* statement as proved in V1/Join1Proof.v (written out; checked against the lemma by exact) *)
+Theorem C17_negative_granularity_window :
+  hash_ranges 5 (-2) = [(0%Z, (-2)%Z)] /\ ~ window_ok 5 (0%Z, (-2)%Z).
+Proof. exact (@negative_granularity_bad_window). Qed.
+Print Assumptions C17_negative_granularity_window.
 
 (* REFUTATION for Tokenize as found: on invalid UTF-8 a token extends past the end of the string *)
 (* statement as proved in V1/Tok1Proof.v (written out; checked against the lemma by exact) *)
